@@ -50,8 +50,15 @@ PARTIAL = {
         "ellipsoid, box, disk) and an accepted point projects no further than the actual modelled support function's "
         "point (X_contained_le_support, X_support_contained, collider_contained_le_support); the disk carries the slack "
         "diskSlab*|d.n| which is attained (disk_slack_attained)",
-    "mesh_hull_subset": "only hull ⊆ predicate is proved (under the vertex/face precondition); predicate ⊆ hull for a "
-                        "closed outward-oriented convex mesh is not proved (the harness' exact oracle covers it)",
+    "mesh_hull_subset": "hull ⊆ predicate is proved for every mesh (under the vertex/face precondition), with its "
+                        "contrapositive mesh_reject_not_in_hull; the accepted set is proved to be exactly the intersection "
+                        "of the face half-spaces, local and world frame (mesh_predicate_is_halfspace_intersection[_world]) "
+                        "and convex (mesh_predicate_convex). predicate ⊆ hull is proved only for the tetrahedron: any "
+                        "non-degenerate tetrahedron labelled with tetDet a b c d > 0 whose outward-wound faces "
+                        "(a,c,b) (a,b,d) (a,d,c) (b,c,d) occur in the face list (mesh_tetra_predicate_subset_hull; "
+                        "mesh_tetra_exact gives predicate <-> hull; mesh_tetra_exact_neg the other orientation). Remaining: predicate ⊆ hull for a general closed "
+                        "outward-oriented convex mesh with more than four vertices (needs polytope theory: H-representation "
+                        "⊆ V-representation) is not proved; the harness' exact oracle covers it",
 }
 ASSUMPTIONS = ["poses are orthonormal, normals unit, sizes > 0 (property domain P); theorems are at exact real arithmetic",
                "mesh triangles are wound outwards (docstring contract of points_in_convex_mesh)",
@@ -67,7 +74,8 @@ MANIFEST = dict(
     text=("Lean theorems sphere/capsule/ellipsoid/cone/cylinder/box_exact: model predicate = true <-> point in the closed "
           "shape (pose image of the local set) for every orthonormal pose and positive sizes; disk_exact + "
           "disk_subset/disk_superset (10*EPSILON slab from regenerated constants); mesh_exact (face half-spaces), "
-          "mesh_hull_subset; batch = element-wise map. Model tied to containment_test.py point by point (Float exact / "
+          "mesh_hull_subset, mesh_reject_not_in_hull, mesh_predicate_is_halfspace_intersection(_world), "
+          "mesh_predicate_convex, mesh_tetra_predicate_subset_hull, mesh_tetra_exact, mesh_tetra_exact_neg (tetrahedron: predicate <-> hull); batch = element-wise map. Model tied to containment_test.py point by point (Float exact / "
           "1e-9*L band, Rat on lattice); exact-rational oracle, point_to_* and support cross-checks on the real code."),
     note=("trusted: Lean kernel + Mathlib, axioms propext/Classical.choice/Quot.sound; exact-real semantics (float rounding "
           "only enters through the 1e-9*L band of the correspondence); hand-written model tied by sampling; "
